@@ -63,6 +63,9 @@ pub fn render_key(k: &dyn KeyObj) -> KeyR {
   if let Some(t) = a.downcast_ref::<Rc<T<0>>>() { return KeyR::Task(TaskKey { fam: 6, id: t.0 }); }
   if let Some(r) = a.downcast_ref::<R<0>>() { return KeyR::Res(ResKey { fam: 0, id: r.0 }); }
   if let Some(r) = a.downcast_ref::<R<1>>() { return KeyR::Res(ResKey { fam: 1, id: r.0 }); }
+  if let Some(r) = a.downcast_ref::<MK<2>>() { return KeyR::Res(ResKey { fam: 2, id: r.0 }); }
+  if let Some(r) = a.downcast_ref::<MK<3>>() { return KeyR::Res(ResKey { fam: 3, id: r.0 }); }
+  if let Some(p) = a.downcast_ref::<std::path::PathBuf>() { if let Some(id) = file_id(p) { return KeyR::Res(ResKey { fam: 4, id }); } }
   KeyR::Other(format!("{:?}", k))
 }
 
